@@ -341,6 +341,15 @@ def run(pid, tier):
         for t in KNOWN_FINDING_HISTORIES[pid]:
             jobs.append(('full', expand(t), alphabet(3, [95, 100, 105, 110]) if pid == 'C02' else None, True))
         traces = replay_all(jobs)
+        # the repository's own test-suite, run under the recording plugin: every public call any test makes on
+        # any HighJumpCompetition (23-athlete pole vault, 15-athlete Olympic final, jump-off replays) is a trace
+        suite = suite_traces(sc)
+        for t in suite:
+            jobs.append(('full', [s_['c'] for s_ in t['steps']], None, True))
+            traces.append({'steps': t['steps'], 'lite': len(t['steps']) > 60})
+        rep.setcov('repository_suite_traces', dict(competitions=len(suite), steps=sum(len(t['steps']) for t in suite),
+                                                    largest_field=max([len(t['steps'][-1]['post']['j']) for t in suite] or [0]),
+                                                    tests=sorted({t['test'].split('::')[-1] for t in suite})))
         rep.count('evaluations', sum(len(t['steps']) + sum(len(s.get('pr', [])) for s in t['steps']) for t in traces))
 
         # ---------------------------------------------------------------- (c) trace validation by TLC
@@ -555,6 +564,33 @@ def order_independence(rep, rng, quick, specdir, sc):
     if recs:
         rep.sample({'round_prefix': ' '.join(fmt_call(c) for c in jobs[0][0]),
                     'interleavings': [' '.join(fmt_call(c) for c in r_) for r_ in jobs[0][1][:3]]})
+
+
+def suite_traces(sc):
+    """Run tests/test_highjump.py of the working tree under harness/pytest_trace.py and return the recorded
+    competitions.  A suite that cannot be run or recorded is a machinery failure only if the unchanged suite
+    could be (the plugin never alters what the tests see)."""
+    import subprocess, sys
+    out = sc.file('suite_trace.ndjson')
+    env = dict(os.environ, VERIF_PYTEST_TRACE=out, PYTHONPATH=common.VERIF + os.pathsep + common.REPO, ATHLIB_VERIF='1',
+               PYTHONDONTWRITEBYTECODE='1')
+    p = subprocess.run([sys.executable, '-m', 'pytest', '-q', '-x', '-p', 'no:cacheprovider', '-p', 'harness.pytest_trace',
+                        'tests/test_highjump.py'], cwd=common.REPO, env=env, stdout=subprocess.PIPE, stderr=subprocess.STDOUT,
+                       timeout=900)
+    if not os.path.exists(out):
+        raise MachineryError('the recording plugin produced no trace file:\n' + p.stdout.decode('utf8', 'replace')[-2000:])
+    res = []
+    with open(out) as f:
+        for line in f:
+            d = json.loads(line)
+            if d.get('kind') != 'hj':
+                continue
+            if d.get('recorder_errors'):
+                raise MachineryError('recorder error in %s: %s' % (d['test'], d['recorder_errors'][:2]))
+            res.append(d)
+    if not res:
+        raise MachineryError('vacuity guard: the test-suite run recorded no high-jump competition')
+    return res
 
 
 def fmt_call(c):
